@@ -74,3 +74,24 @@ end
 
 end SV
 end SLE
+
+namespace SLE.SV
+
+/-- A transformer as passed to `transform_data`: sees a node's payload (kind, attrs, kids) and
+may return a replacement payload. -/
+abbrev Transformer := Kind → List Nat → List SV → Option (Kind × List Nat × List SV)
+
+mutual
+/-- `SymbolicValue::transform_data(f)`: `f` first; where it declines, recurse into the kids.
+Either way the node is rebuilt with `size = child_size + 1`. -/
+def transform (f : Transformer) : SV → SV
+  | .node k attrs ks _ =>
+    match f k attrs ks with
+    | some (k', a', ks') => rebuild k' a' ks'
+    | none => rebuild k attrs (transformList f ks)
+def transformList (f : Transformer) : List SV → List SV
+  | [] => []
+  | k :: ks => transform f k :: transformList f ks
+end
+
+end SLE.SV
